@@ -246,7 +246,9 @@ class Env:
                 if k == "metric_weighted" and isinstance(v, list):
                     kw[k] = tuple(nm(a) for a in v)
                 elif k == "metric_weighted" and isinstance(v, dict):
-                    kw[k] = self.shared((i, k), lambda v=v: {nm(a): tuple(nm(b) for b in bs) for a, bs in v.items()})
+                    kw[k] = self.shared((i, k), lambda v=v: {nm(a): (nm(bs) if isinstance(bs, str) else tuple(nm(b) for b in bs)) for a, bs in v.items()})
+                elif k == "metric_weighted" and isinstance(v, str):
+                    kw[k] = nm(v)
                 elif isinstance(v, dict):
                     kw[k] = self.shared((call.get("share", i), k), lambda v=v: _axis_map(v, nm))
                 else:
@@ -310,6 +312,16 @@ class Env:
                 if k in call:
                     kw[k] = call[k]
             axis = [tuple(nm(a) for a in arg) for arg in call["axis"]]
+            if call.get("combine") == "outer":
+                # two inputs on disjoint axes, combined into one output on all of them
+                def outer(a, b):
+                    return a[..., :, None, None] * b[..., None, :, :]
+
+                if call.get("via") == "decorator":
+                    from xgcm import as_grid_ufunc
+
+                    return as_grid_ufunc(signature=sig)(outer)(g, *das, axis=axis, **kw)
+                return g.apply_as_grid_ufunc(outer, *das, axis=axis, signature=sig, **kw)
             if call.get("via") == "decorator":
                 from xgcm import as_grid_ufunc
 
